@@ -118,6 +118,23 @@ pub fn main() -> ! {
         )
     }));
 
+    // cross-directory rename, both directories synced, crash
+    t(with_fs(|fs| {
+        sfs::write("/a", b"AAAA").unwrap();
+        OpenOptions::new().write(true).open("/a").unwrap().sync_all().unwrap();
+        sfs::sync_dir("/").unwrap();
+        sfs::create_dir("/d").unwrap();
+        sfs::rename("/a", "/d/a").unwrap();
+        sfs::sync_dir("/").unwrap();
+        sfs::sync_dir("/d").unwrap();
+        fs.lock().unwrap().crash();
+        show(
+            "rename a->d/a; sync_dir(/); sync_dir(/d); crash",
+            "AAAA",
+            s(sfs::read("/d/a")),
+        )
+    }));
+
     println!("--- known findings (inode state keyed by path; no small fix)");
     // F10a
     t(with_fs(|_| {
@@ -188,6 +205,22 @@ pub fn main() -> ! {
             "F11: durable f; rename; write+sync via g; crash",
             "ZZAA",
             s(sfs::read("/f")),
+        )
+    }));
+    // resurrected children
+    t(with_fs(|fs| {
+        sfs::create_dir("/d").unwrap();
+        sfs::write("/d/a", b"x").unwrap();
+        sfs::sync_dir("/d").unwrap();
+        sfs::remove_dir_all("/d").unwrap();
+        sfs::sync_dir("/").unwrap();
+        sfs::create_dir("/d").unwrap();
+        sfs::sync_dir("/").unwrap();
+        fs.lock().unwrap().crash();
+        show(
+            "rm -r d (synced); mkdir d (synced); crash",
+            "false",
+            sfs::exists("/d/a").to_string(),
         )
     }));
     println!("{defects} reproduction(s) still show a defect");
